@@ -15,11 +15,13 @@ class DivergedReplay(Exception):
 
 
 class Scheduler:
-    def __init__(self, ops, schedule, pkg_dir, line_files, record_trace=False):
+    def __init__(self, ops, schedule, pkg_dir, line_files, record_trace=False, call_files=None, loop_lines=None):
         self.ops = ops
+        self.loop_lines = loop_lines   # None: every line of line_files; else only these (file, line) pairs (loop headers)
         self.schedule = dict(schedule)
         self.pkg_dir = pkg_dir
         self.line_files = line_files
+        self.call_files = call_files   # None: every call inside the package is a scheduling point
         self.n = len(ops)
         self.sems = [threading.Semaphore(0) for _ in ops]
         self.finished = [False] * self.n
@@ -34,10 +36,15 @@ class Scheduler:
     def _tracer(self, tid):
         pkg, line_files = self.pkg_dir, self.line_files
 
+        loop_lines = self.loop_lines
+
         def local(frame, event, arg):
             if event == "line":
-                self.point(tid, frame)
+                if loop_lines is None or (frame.f_code.co_filename, frame.f_lineno) in loop_lines:
+                    self.point(tid, frame)
             return local
+
+        call_files = self.call_files
 
         def glob(frame, event, arg):
             if event != "call":
@@ -45,8 +52,10 @@ class Scheduler:
             fn = frame.f_code.co_filename
             if not fn.startswith(pkg):
                 return None
-            self.point(tid, frame)
-            if os.path.basename(fn) in line_files:
+            base = os.path.basename(fn)
+            if call_files is None or base in call_files:
+                self.point(tid, frame)
+            if base in line_files:
                 return local
             return None
 
@@ -107,6 +116,22 @@ class Scheduler:
         return self
 
 
-def run_schedule(make_ops, schedule, pkg_dir, line_files, record_trace=False):
-    s = Scheduler(make_ops(), schedule, pkg_dir, line_files, record_trace).run()
+def loop_header_lines(paths):
+    """(file, line) of every for/while statement in the given source files."""
+    import ast
+
+    out = set()
+    for p in paths:
+        try:
+            tree = ast.parse(open(p, encoding="utf-8").read())
+        except Exception:  # noqa
+            continue
+        for node in ast.walk(tree):
+            if isinstance(node, (ast.For, ast.While)):
+                out.add((p, node.lineno))
+    return out
+
+
+def run_schedule(make_ops, schedule, pkg_dir, line_files, record_trace=False, call_files=None, loop_lines=None):
+    s = Scheduler(make_ops(), schedule, pkg_dir, line_files, record_trace, call_files, loop_lines).run()
     return {"results": s.results, "points": s.points, "count": s.count, "error": s.error, "trace": s.trace}
